@@ -7,4 +7,5 @@ INVARIANT MMeasuresTile
 INVARIANT MTiesJoinEqualPitches
 INVARIANT MeasureAsLongAsLongestLayer
 INVARIANT NoRuleBrokenM
+INVARIANT RepeatsWellFormed
 CHECK_DEADLOCK FALSE
